@@ -201,7 +201,7 @@ func c20JudgeFlow(c *mon.Ctx, f *c20Flow) {
 		raw, _ := bt.NewTxFromBytes(final.Bytes())
 		var xerr error
 		if c.Try("interpreter.Engine.Execute", func() {
-			xerr = interpreter.NewEngine().Execute(interpreter.WithTx(raw, i, &bt.Output{Satoshis: cn.sats, LockingScript: bscript.NewFromBytes(append([]byte{}, cn.script...))}),
+			xerr = theEngine(c).Execute(interpreter.WithTx(raw, i, &bt.Output{Satoshis: cn.sats, LockingScript: bscript.NewFromBytes(append([]byte{}, cn.script...))}),
 				interpreter.WithForkID(), interpreter.WithAfterGenesis())
 		}) && xerr != nil {
 			good = false
